@@ -15,7 +15,7 @@ rendered with a generated junk plan (filler syllables incl. command syllables in
 characters, junk between dots, redundant hearts, dots/whitespace/foreign text inside areas, area characters and dots before the first \
 command, stray start syllables at the end) must parse back to the same list; (b) for arbitrary strings parse(concat(raw texts)) = parse; \
 (c) Display/Debug of every area tree is inverted back to the tree and the `hyeong check` listing of rendered files is inverted back to \
-the command list with the right index and line:column; non-trivial = >= 3 commands, >= 2 distinct junk places used, an area with both operators \
+the command list with the right index and line:column, including files of up to 1 MiB in which a multi-byte command character lies across a multiple of a power-of-two block size (512 … 1 MiB); non-trivial = >= 3 commands, >= 2 distinct junk places used, an area with both operators \
 (for (b): >= 2 commands with an area or multi-syllable head); distinct = distinct text";
 
 // (the last five entries are code points adjacent to hearts, dots and `?`/`!`: not significant themselves)
@@ -205,6 +205,35 @@ pub enum Case8 {
     Render { cmds: Vec<RCmd>, plan: Vec<u16> },
     Reparse { text: String },
     Listing { cmds: Vec<RCmd>, plan: Vec<u16> },
+    /// a source file in which a multi-byte significant character lies across the byte offset `boundary`
+    BigFile { cmds: Vec<RCmd>, boundary: usize, pick: u16 },
+}
+
+/// ASCII filler (not significant, with line breaks) followed by the canonical text of `cmds`, sized so that the `pick`-th
+/// multi-byte character of the commands has its first byte(s) before byte offset `boundary` and the rest after it
+pub fn big_file_text(cmds: &[RCmd], boundary: usize, pick: u16) -> Option<String> {
+    let (body, _) = render_noisy(cmds, &[]);
+    let multi: Vec<(usize, usize)> = body.char_indices().filter(|(_, c)| c.len_utf8() > 1).map(|(o, c)| (o, c.len_utf8())).collect();
+    if multi.is_empty() {
+        return None;
+    }
+    let (o, len) = multi[pick_idx(pick, multi.len())];
+    let k = 1 + (pick as usize) % (len - 1);
+    if boundary < o + k {
+        return None;
+    }
+    let fill = boundary - o - k;
+    let mut s = String::with_capacity(fill + body.len());
+    const LINE: &str = "filler text that the language ignores, line after line; no dots or marks\n";
+    while s.len() + LINE.len() <= fill {
+        s.push_str(LINE);
+    }
+    while s.len() < fill {
+        s.push(' ');
+    }
+    s.push_str(&body);
+    debug_assert!(!s.is_char_boundary(boundary));
+    Some(s)
 }
 
 impl Case for Case8 {
@@ -213,6 +242,8 @@ impl Case for Case8 {
             Case8::Render { cmds, plan } => json!({"kind":"render","cmds":cmds.iter().map(|c| c.to_json()).collect::<Vec<_>>(),"plan":plan,"text":render_noisy(cmds, plan).0}),
             Case8::Listing { cmds, plan } => json!({"kind":"listing","cmds":cmds.iter().map(|c| c.to_json()).collect::<Vec<_>>(),"plan":plan,"text":render_noisy(cmds, plan).0}),
             Case8::Reparse { text } => json!({"kind":"reparse","text":text}),
+            Case8::BigFile { cmds, boundary, pick } => json!({"kind":"bigfile","cmds":cmds.iter().map(|c| c.to_json()).collect::<Vec<_>>(),"boundary":boundary,"pick":pick,
+                "note":"file = ASCII filler lines + canonical text of cmds; a multi-byte character of the commands lies across byte offset `boundary`"}),
         }
     }
     fn from_json(v: &Value) -> Option<Self> {
@@ -222,6 +253,7 @@ impl Case for Case8 {
             "render" => Some(Case8::Render { cmds: cmds()?, plan: plan()? }),
             "listing" => Some(Case8::Listing { cmds: cmds()?, plan: plan()? }),
             "reparse" => Some(Case8::Reparse { text: v.get("text")?.as_str()?.to_string() }),
+            "bigfile" => Some(Case8::BigFile { cmds: cmds()?, boundary: v.get("boundary")?.as_u64()? as usize, pick: v.get("pick")?.as_u64()? as u16 }),
             _ => None,
         }
     }
@@ -383,44 +415,59 @@ pub fn check_with(ctx_bin: Option<(&std::path::Path, &std::path::Path)>, c: &Cas
             Ok(())
         }
         Case8::Listing { cmds, plan } => {
-            let (bin, scratch) = ctx_bin.ok_or_else(|| Failure::new("harness:no-binary", "listing case without binary"))?;
             let (text, _) = render_noisy(cmds, plan);
-            let dir = proc::scratch_dir(scratch, "chk");
-            let file = dir.join("p.hyeong");
-            std::fs::write(&file, &text).map_err(|e| Failure::new("harness:io", e.to_string()))?;
-            let o = proc::run(bin, &["--color", "never", "check", file.to_str().unwrap()], &proc::RunOpts::new(b"")).map_err(|e| Failure::new("harness:spawn", e.to_string()))?;
-            let _ = std::fs::remove_dir_all(&dir);
-            if o.status == proc::Status::Timeout {
-                fail!("harness:timeout", "check timed out");
-            }
-            ensure!(o.status == proc::Status::Code(0), "c08:check-status", "`hyeong check` ended with {:?}, stderr {:?}", o.status, o.err_str());
-            let out = o.out_str();
-            // listing lines are the lines that start with an index; whatever else the tool logs is not compared
-            let body: String = out.lines().filter(|l| l.trim_start().chars().next().map(|c| c.is_ascii_digit()).unwrap_or(false)).map(|l| format!("{}\n", l)).collect();
-            let body = body.as_str();
-            let parsed = ref_parse(&text);
-            let lines: Vec<&str> = body.lines().collect();
-            // a command's line cannot contain a newline, so lines = commands
-            ensure!(lines.len() == cmds.len(), "c08:listing", "listing has {} lines for {} commands:\n{}", lines.len(), cmds.len(), body);
-            let mut seen = std::collections::HashSet::new();
-            for (i, line) in lines.iter().enumerate() {
-                let (idx, l, col, kind, h, d, area) = match parse_listing_line(line, "p.hyeong") {
-                    Some(x) => x,
-                    None => fail!("c08:listing", "listing line {:?} cannot be read back", line),
-                };
-                let c = &cmds[i];
-                ensure!(idx == i, "c08:listing", "line {} carries index {}", i, idx);
-                ensure!(kind == c.kind && h == c.h && d == c.d && area == c.tree(), "c08:listing", "listing line {:?} does not denote the command {}_{}_{} {}", line, ONE_SYLLABLE[c.kind as usize], c.h, c.d, c.tree().prefix());
-                ensure!((l, col) == parsed[i].loc, "c08:listing-location", "listing line {:?} shows {}:{} but the command is at {:?}", line, l, col, parsed[i].loc);
-                seen.insert((kind, h, d, area.prefix()));
-            }
-            st.class("check listings compared");
-            if cmds.len() >= 3 && cmds.iter().any(|c| c.tree().has_q() && c.tree().has_b()) {
-                st.nontrivial(&("listing", &text), || json!({"listing": body.lines().take(6).collect::<Vec<_>>()}));
-            }
+            listing_check(ctx_bin, &text, cmds, st)
+        }
+        Case8::BigFile { cmds, boundary, pick } => {
+            let text = match big_file_text(cmds, *boundary, *pick) {
+                Some(t) => t,
+                None => {
+                    st.exclude("big file: no multi-byte character can be placed on the boundary");
+                    return Ok(());
+                }
+            };
+            listing_check(ctx_bin, &text, cmds, st)?;
+            st.class("big file: multi-byte character across a power-of-two byte offset");
+            st.class(&format!("big file boundary {}", boundary));
             Ok(())
         }
     }
+}
+
+fn listing_check(ctx_bin: Option<(&std::path::Path, &std::path::Path)>, text: &str, cmds: &[RCmd], st: &mut Stats) -> CheckResult {
+    let (bin, scratch) = ctx_bin.ok_or_else(|| Failure::new("harness:no-binary", "listing case without binary"))?;
+    let dir = proc::scratch_dir(scratch, "chk");
+    let file = dir.join("p.hyeong");
+    std::fs::write(&file, text).map_err(|e| Failure::new("harness:io", e.to_string()))?;
+    let o = proc::run(bin, &["--color", "never", "check", file.to_str().unwrap()], &proc::RunOpts::new(b"")).map_err(|e| Failure::new("harness:spawn", e.to_string()))?;
+    let _ = std::fs::remove_dir_all(&dir);
+    if o.status == proc::Status::Timeout {
+        fail!("harness:timeout", "check timed out");
+    }
+    ensure!(o.status == proc::Status::Code(0), "c08:check-status", "`hyeong check` ended with {:?}, stderr {:?}", o.status, o.err_str());
+    let out = o.out_str();
+    // listing lines are the lines that start with an index; whatever else the tool logs is not compared
+    let body: String = out.lines().filter(|l| l.trim_start().chars().next().map(|c| c.is_ascii_digit()).unwrap_or(false)).map(|l| format!("{}\n", l)).collect();
+    let body = body.as_str();
+    let parsed = ref_parse(text);
+    let lines: Vec<&str> = body.lines().collect();
+    // a command's line cannot contain a newline, so lines = commands
+    ensure!(lines.len() == cmds.len(), "c08:listing", "listing has {} lines for {} commands:\n{}", lines.len(), cmds.len(), body.chars().take(2000).collect::<String>());
+    for (i, line) in lines.iter().enumerate() {
+        let (idx, l, col, kind, h, d, area) = match parse_listing_line(line, "p.hyeong") {
+            Some(x) => x,
+            None => fail!("c08:listing", "listing line {:?} cannot be read back", line),
+        };
+        let c = &cmds[i];
+        ensure!(idx == i, "c08:listing", "line {} carries index {}", i, idx);
+        ensure!(kind == c.kind && h == c.h && d == c.d && area == c.tree(), "c08:listing", "listing line {:?} does not denote the command {}_{}_{} {}", line, ONE_SYLLABLE[c.kind as usize], c.h, c.d, c.tree().prefix());
+        ensure!((l, col) == parsed[i].loc, "c08:listing-location", "listing line {:?} shows {}:{} but the command is at {:?}", line, l, col, parsed[i].loc);
+    }
+    st.class("check listings compared");
+    if cmds.len() >= 3 && cmds.iter().any(|c| c.tree().has_q() && c.tree().has_b()) {
+        st.nontrivial(&("listing", text), || json!({"listing": body.lines().take(6).collect::<Vec<_>>()}));
+    }
+    Ok(())
 }
 
 /// listings whose index / line / column values sit around powers of ten (the listing pads its columns by digit count)
@@ -436,6 +483,16 @@ fn wide_listing() -> BoxedStrategy<Case8> {
             Case8::Listing { cmds, plan: Vec::new() }
         })
         .boxed()
+}
+
+/// source files larger than the block sizes a file reader may use, with a multi-byte command character across the block edge
+fn big_file_strategy() -> BoxedStrategy<Case8> {
+    let boundary = prop_oneof![
+        4 => prop::sample::select(vec![512usize, 1024, 4096, 8192, 16384, 32768, 65536, 131072, 262144, 1 << 20]),
+        2 => (1usize..=24).prop_map(|k| k * 8192),
+        1 => (1usize..=6).prop_map(|k| k * 65536),
+    ];
+    (prop::collection::vec(list_cmd(false), 3..40), boundary, any::<u16>()).prop_map(|(cmds, boundary, pick)| Case8::BigFile { cmds, boundary, pick }).boxed()
 }
 
 pub fn run(ctx: &Ctx, out: &mut Outcome) {
@@ -479,6 +536,10 @@ pub fn run(ctx: &Ctx, out: &mut Outcome) {
         let (bin, scratch) = (bin.clone(), scratch.clone());
         search::<Case8>(ctx, out, "check-listing-wide", t.pick(60, 400), &wide_listing, &move |c, st| check_with(Some((&bin, &scratch)), c, st));
     }
+    {
+        let (bin, scratch) = (bin.clone(), scratch.clone());
+        search::<Case8>(ctx, out, "check-listing-big-file", t.pick(96, 600), &big_file_strategy, &move |c, st| check_with(Some((&bin, &scratch)), c, st));
+    }
     search::<Case8>(
         ctx,
         out,
@@ -503,6 +564,7 @@ pub fn gates(out: &Outcome, tier: Tier) -> Vec<String> {
         ("dot count > 300", 50),
         ("area with >= 50 operators", 100),
         ("check listings compared", 300),
+        ("big file: multi-byte character across a power-of-two byte offset", 40),
         ("reparse cases", 30000),
     ] {
         if out.stats.get(class) < min * m {
